@@ -161,6 +161,12 @@ def b1(ctx, rid):
                 for o in deep:
                     if o.kind == 'call' and o.data.name in justs:
                         ok = True
+                    # the justifying test may be wrapped in a helper of the same file (`read_bit_from_file(..)`)
+                    if o.kind == 'call' and not ok:
+                        for tt in prog.resolve(o.data):
+                            hh = prog.fns.get(tt)
+                            if hh is not None and hh.file == f.file and any(x.name in justs for gid in prog.family(prog.fns[tt].root) for x in prog.fns[gid].calls):
+                                ok = True
                     if o.kind == 'field' and ('@field:' + o.data[1]) in justs:
                         ok = True
         if ok:
@@ -306,31 +312,46 @@ def b4(ctx, rid):
         raise core.AnchorLost('merge / init calls in add_child')
     # (a) ancestor loop
     key = 'merge-into-every-ancestor'
-    ok = False
-    for (h, body) in natural_loops(f):
-        m_in = [c for c in merges if c.bb in body]
-        if not m_in:
-            continue
-        reads_parent = False
-        for b in body:
-            for s in f.blocks[b]['s']:
-                if s['k'] == 'a':
-                    for p in core.rvalue_places(s['r']):
-                        if 'parent' in core.place_fields(p):
-                            reads_parent = True
-        # loop exit only on the None edge of an Option discriminant
-        exits = [(b, s) for b in body for s in f.succ[b] if s not in body]
-        exit_ok = True
-        for (b, s) in exits:
-            t = f.blocks[b]['t']
-            if t['k'] != 'switch':
-                exit_ok = False
+
+    def ancestor_loop(g):
+        gm = [c for c in g.calls if c.name in ('add_filter_from_cow', 'merge_filters')]
+        for (h, body) in natural_loops(g):
+            m_in = [c for c in gm if c.bb in body]
+            if not m_in:
                 continue
-            ogs = core.origins(f, t['o'])
-            if not any(o.kind == 'discr' and (core.place_type_str(f, o.data['p']) or '').startswith('std::option::Option') for o in ogs):
-                exit_ok = False
-        if reads_parent and exit_ok and exits:
-            ok = True
+            reads_parent = False
+            for b in body:
+                for s in g.blocks[b]['s']:
+                    if s['k'] == 'a':
+                        for p in core.rvalue_places(s['r']):
+                            if 'parent' in core.place_fields(p):
+                                reads_parent = True
+            # loop exit only on the None edge of an Option discriminant
+            exits = [(b, s) for b in body for s in g.succ[b] if s not in body]
+            exit_ok = True
+            for (b, s) in exits:
+                t = g.blocks[b]['t']
+                if t['k'] != 'switch':
+                    exit_ok = False
+                    continue
+                ogs = core.origins(g, t['o'])
+                if not any(o.kind == 'discr' and (core.place_type_str(g, o.data['p']) or '').startswith('std::option::Option') for o in ogs):
+                    exit_ok = False
+            if reads_parent and exit_ok and exits:
+                return True
+        return False
+    ok = ancestor_loop(f)
+    if not ok:
+        # the walk up the ancestors may be a helper (`add_filter_to_ancestors(parent, &filter)`) that every path of f calls
+        rets = [i for i in f.reachable() if f.blocks[i]['t']['k'] == 'return']
+        for c in f.calls:
+            if c.bb not in f.reachable():
+                continue
+            for t in prog.resolve(c):
+                g = prog.fns.get(t)
+                if g is not None and g.file == f.file and not g.is_coroutine and g.id != f.id and ancestor_loop(g) \
+                   and not any(r in f.reach_from([0], avoid_exit=[c.bb]) for r in rets):
+                    ok = True
     if ok:
         ctx.ok(rid, key, merges[0].where(), 'the child filter is merged in a loop that follows `parent` until None')
     else:
@@ -417,8 +438,8 @@ def b5(ctx, rid):
     closure_ok = False
     for fid in prog.family(f.id):
         g = prog.fns[fid]
-        if g.id != f.id and any(c.name == 'checked_add_assign' for c in g.calls):
-            closure_ok = True
+        if any(c.name == 'checked_add_assign' for c in g.calls):
+            closure_ok = True      # in a closure handed to map(..), or called directly in a match arm
     good = False
     for j in f.reachable():
         t = f.blocks[j]['t']
